@@ -47,6 +47,12 @@ def run(res, tier, replay):
                 continue
             names = sorted([k for k in exp if not k.startswith(b"::")], key=chmfmt.sort_key)
             order = [rng.randrange(len(names)) for _ in range(10 if tier == "quick" else 20)]
+            # directed part: the compressed members in directory order, each followed by an uncompressed-section member
+            # (which moves the shared input handle while the LZX decoder is kept), then the same backwards
+            s0 = [names.index(nm) for nm, _ in f0 if nm in names]; s1 = [k for k in range(len(names)) if k not in s0]
+            if s0 and s1:
+                for k in s1: order += [k, rng.choice(s0)]
+                for k in reversed(s1): order += [rng.choice(s0), k]
             sc = scenario.Scn().file("in0.chm", chm).op("chm_new").op("chm_open", "h0", "in0.chm")
             for j, m in enumerate(order): sc.op("chm_extract", "h0", m, "o%d_%d" % (j, m))
             scns.append(sc); meta.append(("chm-hist", i, order))
